@@ -821,6 +821,15 @@ func (t *trans) call(c *ast.CallExpr) string {
 				}
 			}
 		}
+		if f.Sel.Name == "Delete" && len(c.Args) == 1 {
+			if inner, ok := f.X.(*ast.SelectorExpr); ok && inner.Sel.Name == "Store" {
+				t.addExtern("storeDelete", "String → Outcome GoError")
+				if t.cur.trace {
+					t.pre = append(t.pre, "trace' := trace' ++ [⟨\"Store.Delete\", ["+t.expr(c.Args[0])+"]⟩]")
+				}
+				return "(← env.storeDelete " + t.expr(c.Args[0]) + ")"
+			}
+		}
 		if f.Sel.Name == "PathValue" && len(c.Args) == 1 {
 			t.addExtern("pathValue", "HTTPRequest → String → String")
 			return "(env.pathValue " + t.derefd(f.X) + " " + t.expr(c.Args[0]) + ")"
@@ -1340,6 +1349,12 @@ func (t *trans) stmt1(o *out, ind int, s ast.Stmt) {
 		t.switchStmt(o, ind, x)
 	case *ast.BlockStmt:
 		t.block(o, ind, x)
+	case *ast.DeferStmt:
+		// only the release of the registry lock is deferred in the translated code (concurrency is outside the translation)
+		if src := t.src(x.Call.Fun); strings.HasSuffix(src, "Mu.Unlock") || strings.HasSuffix(src, "Mu.RUnlock") {
+			return
+		}
+		t.failf("%s: unsupported defer %s", t.cur.name, t.src(x.Call))
 	default:
 		t.failf("%s: unsupported statement %T", t.cur.name, s)
 	}
@@ -1411,6 +1426,26 @@ func (t *trans) assign(o *out, ind int, x *ast.AssignStmt) {
 				t.useField(sname, l.Sel.Name)
 				o.line(ind, t.cur.recv+" := { "+t.cur.recv+" with "+l.Sel.Name+" := "+t.expr(x.Rhs[0])+" }")
 				return
+			}
+		}
+	}
+	if len(x.Rhs) == 1 && len(x.Lhs) == 2 && x.Tok == token.DEFINE {
+		// v, ok := m[k] on a map with string keys
+		if ix, ok := x.Rhs[0].(*ast.IndexExpr); ok {
+			if mt, isMap := t.info.Types[ix.X].Type.Underlying().(*types.Map); isMap {
+				v, okID := x.Lhs[0].(*ast.Ident), x.Lhs[1].(*ast.Ident)
+				if v != nil && okID != nil {
+					t.tmpN++
+					tmp := fmt.Sprintf("lookup%d'", t.tmpN)
+					o.line(ind, "let "+tmp+" := mapGet "+t.expr(ix.X)+" "+t.expr(ix.Index))
+					zero := "default"
+					if _, isPtr := mt.Elem().(*types.Pointer); isPtr {
+						zero = "none"
+					}
+					t.declare(o, ind, v.Name, "("+tmp+".getD "+zero+")")
+					t.declare(o, ind, okID.Name, tmp+".isSome")
+					return
+				}
 			}
 		}
 	}
@@ -2159,6 +2194,8 @@ func translate(repo string, p *pkgFiles, outPath string) {
 	}
 	idpSpecs := []transSpec{
 		{fn: "HandlePutService", recv: "Server", mutRecv: true, trace: true},
+		{fn: "HandleDeleteService", recv: "Server", mutRecv: true, trace: true},
+		{fn: "GetServiceProvider", recv: "Server"},
 		{fn: "GetSession", recv: "Server", as: "credentialGuards", trace: true, inside: "if r.Method == \"POST\" && r.PostForm.Get(\"user\") != \"\" {", until: "session := &saml.Session{"},
 		{fn: "GetSession", recv: "Server", as: "cookieSession", trace: true, anchor: "if sessionCookie, err := r.Cookie(\"session\"); err == nil {"},
 	}
